@@ -16,6 +16,7 @@ import (
 type Event struct {
 	Kind string   // API events: pc pr sc sr rv ak nk cx cc cr zz ; hook events: h
 	F    []string // fields
+	G    int64    // id of the goroutine that logged the event
 }
 
 // Rec is the recorder + hook-driven scheduler of one scenario.
@@ -37,9 +38,25 @@ func NewRec(seed uint64, yieldPermille int) *Rec {
 	return &Rec{seed: seed, yieldPermille: yieldPermille, hookCount: map[string]int{}}
 }
 
+// gid returns the id of the calling goroutine (parsed from the stack header; used only to attribute hook events to API calls).
+func gid() int64 {
+	var buf [64]byte
+	n := runtime.Stack(buf[:], false)
+	// "goroutine 123 [running]:"
+	var id int64
+	for _, c := range buf[10:n] {
+		if c < '0' || c > '9' {
+			break
+		}
+		id = id*10 + int64(c-'0')
+	}
+	return id
+}
+
 func (r *Rec) Log(kind string, f ...string) int {
+	g := gid()
 	r.mu.Lock()
-	r.evs = append(r.evs, Event{kind, f})
+	r.evs = append(r.evs, Event{kind, f, g})
 	n := len(r.evs)
 	r.mu.Unlock()
 	return n
